@@ -21,6 +21,7 @@ type cliOp struct {
 	kind int
 	name string
 	fd   int32 // base descriptor; 0 = 3
+	fd2  int32 // kind 7: the descriptor the new link is made under
 }
 
 // cliGuest: one exported function op<i> per operation (on the operation's base descriptor, results
@@ -36,6 +37,7 @@ func cliGuest(ops []cliOp) []byte {
 	rename := m.ImportFunc("wasi_snapshot_preview1", "path_rename", w(i32, i32, i32, i32, i32, i32), w(i32))
 	settimes := m.ImportFunc("wasi_snapshot_preview1", "path_filestat_set_times", w(i32, i32, i32, i32, i64, i64, i32), w(i32))
 	write := m.ImportFunc("wasi_snapshot_preview1", "fd_write", w(i32, i32, i32, i32), w(i32))
+	link := m.ImportFunc("wasi_snapshot_preview1", "path_link", w(i32, i32, i32, i32, i32, i32, i32), w(i32))
 	exit := m.ImportFunc("wasi_snapshot_preview1", "proc_exit", w(i32), nil)
 	m.Mem = &wasmb.Limits{Min: 1}
 	m.Exports = append(m.Exports, wasmb.Export{Name: "memory", Kind: wasmb.KindMemory, Idx: 0})
@@ -73,6 +75,11 @@ func cliGuest(ops []cliOp) []byte {
 			c.I32Const(fd).I32Const(p).I32Const(l).I32Const(fd).I32Const(q).I32Const(ql).Call(rename).Drop()
 		case 5:
 			c.I32Const(fd).I32Const(0).I32Const(p).I32Const(l).I64Const(7000000000).I64Const(7000000000).I32Const(5).Call(settimes).Drop()
+		case 7: // hard link name (under fd) to "lnk" under fd2, then open the link for writing and write
+			q, ql := str("lnk")
+			c.I32Const(fd).I32Const(0).I32Const(p).I32Const(l).I32Const(op.fd2).I32Const(q).I32Const(ql).Call(link).Drop()
+			c.I32Const(op.fd2).I32Const(0).I32Const(q).I32Const(ql).I32Const(0).I64Const(0x3fffffff).I64Const(0x3fffffff).I32Const(0).I32Const(0x200).Call(open).Drop()
+			c.I32Const(0x200).I32Load(0).I32Const(0x100).I32Const(1).I32Const(0x208).Call(write).Drop()
 		case 6: // open for writing without O_CREAT / O_TRUNC, then write
 			c.I32Const(fd).I32Const(0).I32Const(p).I32Const(l).I32Const(0).I64Const(0x3fffffff).I64Const(0x3fffffff).I32Const(0).I32Const(0x200).Call(open).Drop()
 			c.I32Const(0x200).I32Load(0).I32Const(0x100).I32Const(1).I32Const(0x208).Call(write).Drop()
